@@ -191,6 +191,42 @@ let run_hapi t : string * string =
     | Err ((k, _), fnd) -> Printf.sprintf "%s;n=%d" (show_kind_err k) (List.length fnd) in
   (m, "-")
 
+
+(* ---------- digests ---------- *)
+let alg_of_string = function "md5" -> MD5 | "sha1" -> SHA1 | "sha256" -> SHA256 | _ -> SHA512
+let alg_to_string = function MD5 -> "md5" | SHA1 -> "sha1" | SHA256 -> "sha256" | SHA512 -> "sha512"
+let enc_of_int = function 1 -> Base16 | 2 -> Base32 | 3 -> Base64 | _ -> EUnknown
+let hash_oracle (a : alg) (s : n list) : n list = unhex (ask ("hash " ^ alg_to_string a ^ " " ^ hex s))
+let opt_dec kind (s : n list) : n list option =
+  let a = ask (kind ^ " " ^ hex s) in if a = "err" then None else Some (unhex a)
+let b32dec = opt_dec "b32dec"
+let b64dec = opt_dec "b64dec"
+let uni_upper (s : n list) : n list = unhex (ask ("upper " ^ hex s))
+let fmt_digest alg e (x : n list) : n list =
+  match new_digest uni_lower uni_upper (bytes_of_str alg) e with
+  | Some d -> format hash_oracle (feed d x)
+  | None -> bytes_of_str "UNSUPPORTED"
+
+(* ---------- C16: block accessors ---------- *)
+let drain_of_int k = if k < 0 then None else Some (nat_of_int k)
+let parse_aop t : aop =
+  match next t with
+  | "raw" -> ARaw (drain_of_int (next_int t))
+  | "pay" -> APayload (drain_of_int (next_int t))
+  | "bd" -> ABlockDigest | "pd" -> APayloadDigest | "size" -> ASize | "cache" -> ACache | "isc" -> AIsCached
+  | s -> failwith ("unknown accessor " ^ s)
+let show_aobs = function
+  | RData d -> "d:" ^ hex d | RErr -> "err" | RStr s -> "s:" ^ hex s
+  | RNum k -> Printf.sprintf "n:%d" (int_of_nat k) | RBool b -> if b then "b:1" else "b:0" | RUnit -> "-"
+let run_block t : string * string =
+  let _kind = next t in let cached = next_int t = 1 in let alg = next t in let e = enc_of_int (next_int t) in
+  let _maxmem = next_int t in let head = next_hex t in let body = next_hex t in let k = next_int t in
+  let ops = List.init k (fun _ -> parse_aop t) in
+  let f = fmt_digest alg e in
+  let show l = String.concat ";" (List.map show_aobs l) in
+  (show (block_run f f (fresh head body cached) ops),
+   show (spec_run f f { s_head = head; s_body = body; s_cached = cached; s_used = false } ops))
+
 (* ---------- main ---------- *)
 let run_line (line : string) : string * string =
   let t = { rest = List.filter (fun s -> s <> "") (String.split_on_char ' ' line) } in
@@ -200,6 +236,7 @@ let run_line (line : string) : string * string =
   | "validate" -> run_validate t
   | "hparse" -> run_hparse t
   | "hapi" -> run_hapi t
+  | "block" -> run_block t
   | d -> failwith ("unknown domain " ^ d)
 
 let () =
